@@ -60,7 +60,7 @@ class C19(Prop):
     RULE = ('one case = 0-10 really recorded operations in 1-4 prefix-related categories (Op, OpB, Op_x, O) on an in-memory, '
             'file-based or fake-bucket S3 cassette, played by the real PlaybackStudio with explicit ids in shuffled order '
             '(sometimes with unknown ids / duplicates) or lookup-driven (skip_incomplete on/off, interrupted recordings), tuners '
-            'failing for a subset of categories, generators consumed in a given interleaving; non-trivial = at least two '
+            'failing for a subset of categories, generators consumed in a given interleaving, a quarter of the cases with play() called a second time on the same studio; non-trivial = at least two '
             'categories involved or a failing tuner; distinct = distinct canonical case')
     TRUSTED = ['correspondence harness harness/props/c19.py + Lean driver (Drive/Studio.lean)',
                'category names are renamed to their rank in Python string order for the model (sorted() on str = rank order)',
@@ -106,6 +106,8 @@ class C19(Prop):
                 # with at most 10 recordings a category they select what the explicit properties select
                 case['default_props'] = True
             case['order'] = self.make_order(case, rng)
+            if rng.random() < 0.25:
+                case['again'] = True      # play() is called a second time on the same studio object
             cases.append(case)
         # the same kind of run with every category's comparisons in a dedicated worker process, the categories' generators
         # consumed interleaved (each category has its own worker; one category's run must not disturb another's)
@@ -397,9 +399,29 @@ class C19(Prop):
                         idle = idle and recorder_idle()
                 except Exception as ex:
                     got[k].append(['raised', type(ex).__name__, str(ex), None, None])
-            return {'cats': cats, 'errors': errors, 'final': {k: v for k, v in got.items() if k not in errors},
-                    'after_order': after_order, 'log': sorted(log.collect()) if case.get('dedicated') else log.collect(),
-                    'idle': idle, 'cassette_unchanged': listing() == before}
+            out = {'cats': cats, 'errors': errors, 'final': {k: v for k, v in got.items() if k not in errors},
+                   'after_order': after_order, 'log': sorted(log.collect()) if case.get('dedicated') else log.collect(),
+                   'idle': idle, 'cassette_unchanged': listing() == before}
+            if case.get('again'):
+                # the comparison is run once more on the same studio object: the same recordings, the same verdicts
+                try:
+                    second = studio.play()
+                    again = {}
+                    for k in list(second.keys()):
+                        if isinstance(second[k], Exception):
+                            again[k] = ['error', type(second[k]).__name__]
+                            continue
+                        again[k] = []
+                        try:
+                            for c in second[k]:
+                                again[k].append(obs(c)[:3])
+                        except Exception as ex:
+                            again[k].append(['raised', type(ex).__name__, str(ex)])
+                    out['again'] = again
+                except Exception as ex:
+                    out['again'] = {'play_raised': [type(ex).__name__, str(ex)]}
+                log.collect()
+            return out
         finally:
             shutil.rmtree(tmp, ignore_errors=True)
 
@@ -538,6 +560,15 @@ class C19(Prop):
         for (cat, tok), n in played.items():
             if cat in case['failing'] or tok not in groups.get(cat, []):
                 fails.append('recording %r was replayed under category %s although it was not selected for it' % (tok, cat))
+        if 'again' in impl:
+            if 'play_raised' in impl['again']:
+                fails.append('a second play() on the same studio raised %r' % (impl['again']['play_raised'],))
+            else:
+                first = {k: sorted([c[:3] for c in v], key=repr) for k, v in impl['final'].items()}
+                first.update({k: ['error', v[0]] for k, v in impl['errors'].items()})
+                second = {k: (v if v[:1] == ['error'] else sorted(v, key=repr)) for k, v in impl['again'].items()}
+                if first != second:
+                    fails.append('a second play() on the same studio gave %r, the first one %r' % (second, first))
         if not impl['idle']:
             fails.append('the tape recorder was not idle between two next() calls')
         if not impl['cassette_unchanged']:
@@ -557,6 +588,8 @@ class C19(Prop):
             out.append('unknown-id')
         if any(inc for _, _, inc in case['recs']):
             out.append('incomplete-recording')
+        if case.get('again'):
+            out.append('played-twice-on-one-studio')
         return out
 
     def shrink(self, case):
